@@ -152,6 +152,7 @@ func ruleKeys(c *Ctx) {
 		l.add("R-KEYS", "v5", "anchor partialDoc", "", Undecided, "type partialDoc not found", false)
 		return
 	}
+	b.keysNeverReordered(l)
 	var writers []string
 	for _, fn := range b.srcFuncs(b.Lib) {
 		var appends, removals, keyStores, inserts, deletes, objStores []pdAccess
